@@ -86,8 +86,8 @@ def parse_records(results):
                 insts[key] = {"key": key, "S": S, "size": size, "J": J, "nilp": nilp,
                               "weak": nodes != merged, "cf": cfm}
             elif v[0] == "CASE":
-                _, key, rules, pre, hist, err, mcs, tot = v
-                cases[(key, rules, pre, hist)] = ("+".join(sorted(err)) or "none", mcs, tot)
+                _, key, rules, pre, hist, err, mcs, tot, exact = v
+                cases[(key, rules, pre, hist)] = ("+".join(sorted(err)) or "none", mcs, tot, exact)
     return insts, cases
 
 
@@ -135,9 +135,11 @@ def prediction(cases, key, rules, pre, h, expected):
     c = cases.get((key, rules, pre, h))
     if c is None:
         return "n/a"
-    err, _, tot = c
+    err, _, tot, exact = c
     if err != "none":
         return err
+    if not exact:
+        return "other_system"   # the code answers, from a residual system the specification cannot invert
     ri, ro, _ = h[-1]
     if any(tot[f][x] != expected[f][x] for f in ro for x in ri):
         return "wrong"
@@ -265,6 +267,7 @@ def run(ck: Check):
     n_blocks = 0
     stats = {}
     solver_stats = {}
+    misses = []
     for n, ((key, hist, conf), steps) in enumerate(zip(todo + sweep, outs)):
         inst = insts[key]
         pre = pre_of(conf)
@@ -301,6 +304,10 @@ def run(ck: Check):
                 st[outcome] += 1
             st = stats.setdefault(f"{pre}:{pa}/{p3}", {"ok": 0, "raised": 0, "wrong": 0})
             st[outcome] += 1
+            if outcome == "ok" and pa not in ("none", "other_system", "chain_linearize") and len(misses) < 5:
+                # the rules as read predicted a failure that the implementation does not show
+                # (expected once the repairs are applied to gemseo)
+                misses.append({"instance": key, "history": h, "config": conf, "asread": pa, "r3": p3})
             if outcome == "raised":
                 ck.violation("NoRaise", dict(sig, exception=step["exc"]),
                              dict(case, step=k, request=h[-1], error=step, expected=exp))
@@ -320,6 +327,7 @@ def run(ck: Check):
     ck.extra["blocks_equal_to_spec"] = n_blocks
     ck.extra["outcome_by_prediction(pre:asread/r3)"] = dict(sorted(stats.items()))
     ck.extra["solver_sweep"] = dict(sorted(solver_stats.items()))
+    ck.extra["predicted_failures_not_observed(examples)"] = misses
     ck.extra["constants"] = {"profiles": profiles, "choices": choices, "seeds": seeds, "emit_profiles": eprofiles,
                              "emit_choices": echoices, "emit_seeds": eseeds}
     ck.exhaustive = False
